@@ -29,6 +29,9 @@ CHECKS = {
  "C14": dict(cat="exploration", technique="deterministic simulation: seeded operation histories on a real file system behind the sc seam with short-transfer/EINTR/getdents-window/hard-error injection, model tree + std::fs observer",
    text="Seeded histories of tiny_std::fs operations run in a fresh directory on the real kernel file system; paths cover relative/absolute/dot, repeated and trailing separators, names up to 255 bytes, non-UTF-8, depths past the 512-byte stack buffer up to ~4000 bytes, trees with files, directories, symlinks to outside/dangling and fifos. Half of the cases inject short read/write/copy_file_range, EINTR, a reduced getdents window and one hard EIO/ENOSPC at the sc seam. When an operation returns Ok, the tree observed through std::fs must equal the model after that operation, returned data must equal the model's, a sentinel tree outside must be unchanged and iteration must yield every entry exactly once; Ok after a hard error is a violation. Sampling, not proof.",
    note="No post-condition is demanded after Err; operations are only pointed at link-free paths (following a link legitimately acts outside the tree); rename/exists/metadata are not judged beyond simple agreement.", ref="DESIGN.md §3 C14"),
+ "C19": dict(cat="exploration", technique="deterministic simulation: simulated clocks and nanosleep with EINTR/errno injection (sleep and monotonic clauses); seeded boundary-biased sampling against exact i128 arithmetic for the pure arithmetic clause",
+   text="Sleep/clock clause: thread::sleep(d) runs on a simulated 128-bit nanosecond clock whose nanosleep is interrupted 0-20 times by decision (remainder written back), may fail once with another errno, and never completes when its end is beyond what the clock can show; Ok must not come before the clock advanced by d, other errnos must surface, unrepresentable durations must be errors, readings never decrease. Arithmetic clause (a pure function - simulation adds nothing to it beyond supplying values): Instants read from a clock set to boundary-biased values and boundary-biased Durations are added, subtracted, differenced and compared, checked against exact i128 arithmetic incl. round trips; SystemTime values down to i64::MIN seconds must not panic. Half of the workers run with overflow checks on. Sampling, not proof.",
+   note="Built without the vdso feature (every clock reading passes the sc seam); the arithmetic clause gets seeded input sampling only.", ref="DESIGN.md §3 C19"),
 }
 NA = {
  "C07": "pure function of the initial process image (argv/env/aux on the start-up stack): no schedule, clock, fault or second party to simulate",
